@@ -22,19 +22,114 @@ import (
 
 	"github.com/miekg/dns"
 	"github.com/semihalev/sdns/config"
-	"github.com/semihalev/sdns/internal/mock"
 	"github.com/semihalev/sdns/middleware"
 )
 
-type vWriter struct {
-	*mock.Writer
-	ip       net.IP
-	internal bool
+// a transport without an Internal() method, reporting an arbitrary remote address
+type vC17Tr struct {
+	addr net.Addr
+	msg  *dns.Msg
 }
 
-func (w *vWriter) RemoteIP() net.IP       { return w.ip }
-func (w *vWriter) RemoteAddr() net.Addr { return &net.UDPAddr{IP: w.ip, Port: 5353} }
-func (w *vWriter) Internal() bool   { return w.internal }
+func (t *vC17Tr) LocalAddr() net.Addr         { return &net.UDPAddr{IP: net.IPv4(127, 0, 0, 1), Port: 53} }
+func (t *vC17Tr) RemoteAddr() net.Addr        { return t.addr }
+func (t *vC17Tr) WriteMsg(m *dns.Msg) error   { t.msg = m; return nil }
+func (t *vC17Tr) Write(b []byte) (int, error) { t.msg = new(dns.Msg); return len(b), t.msg.Unpack(b) }
+func (t *vC17Tr) Close() error                { return nil }
+func (t *vC17Tr) vC17Written() bool           { return t.msg != nil }
+
+// ... and one with it
+type vC17TrSays struct {
+	vC17Tr
+	says bool
+}
+
+func (t *vC17TrSays) Internal() bool { return t.says }
+
+func vC17CoqIP(ip net.IP) string {
+	switch len(ip) {
+	case 4:
+		return fmt.Sprintf("(Some (mk_addr true %s))", new(big.Int).SetBytes(ip).String())
+	case 16:
+		return fmt.Sprintf("(Some (mk_addr false %s))", new(big.Int).SetBytes(ip).String())
+	}
+	return "None"
+}
+
+type vC17Sink interface {
+	vC17Written() bool
+}
+
+// one corpus entry: a fixed remote (see corpus/C17/*.json)
+type vC17Fixed struct {
+	Src    string `json:"src"`       // address literal
+	Form   int    `json:"ip_bytes"`  // 4 or 16 (an IPv4 address in 16-byte IPv4-mapped form)
+	Kind   string `json:"addr_type"` // udp | tcp | ipaddr | nil
+	Port   int    `json:"port"`
+	Method string `json:"internal_method"` // none | false | true
+}
+
+func (e vC17Fixed) vC17Make() (middleware.Transport, vC17Sink, string, map[string]any) {
+	a := netip.MustParseAddr(e.Src)
+	ip := net.IP(a.AsSlice())
+	if e.Form == 16 && a.Is4() {
+		b := a.As16()
+		ip = net.IP(b[:])
+	}
+	kind := map[string]int{"udp": 0, "tcp": 1, "ipaddr": 2, "nil": 3}[e.Kind]
+	says := map[string]int{"none": 0, "": 0, "false": 1, "true": 2}[e.Method]
+	return vC17MkRemote(ip, kind, e.Port, says)
+}
+
+// vC17Remote builds a transport for a peer with this IP: the remote-address type, the port and the
+// Internal() method vary; sentinel = offer the sub-query signature's neighbourhood (port 0, any method).
+// Returns the transport, the model's [remote] term and a description.
+func vC17Remote(r *rand.Rand, ip net.IP, sentinel bool) (middleware.Transport, vC17Sink, string, map[string]any) {
+	kind := r.Intn(2)
+	port := []int{4242, 1, 53, 65535, 1024 + r.Intn(60000)}[r.Intn(5)]
+	says := r.Intn(2) // none / false
+	if sentinel {
+		port = []int{0, 0, 4242, 1, 65535}[r.Intn(5)]
+		says = r.Intn(3)
+		if r.Intn(6) == 0 {
+			kind = 2
+		}
+	} else {
+		switch r.Intn(16) {
+		case 0:
+			says = 2 // a transport that declares the request internal
+		case 1:
+			kind = 2 + r.Intn(2) // a foreign address type: no usable peer address
+		case 2:
+			port = 0
+		}
+	}
+	return vC17MkRemote(ip, kind, port, says)
+}
+
+// vC17MkRemote: kind 0 = *net.UDPAddr, 1 = *net.TCPAddr, 2 = *net.IPAddr, 3 = nil address; says 0 = the
+// transport has no Internal() method, 1 = it says false, 2 = it says true.
+func vC17MkRemote(ip net.IP, kind, port, says int) (middleware.Transport, vC17Sink, string, map[string]any) {
+	var addr net.Addr
+	kindCoq, ipCoq, kindName := "KOther", "None", "nil"
+	switch kind {
+	case 0:
+		addr, kindCoq, ipCoq, kindName = &net.UDPAddr{IP: ip, Port: port}, "KUdp", vC17CoqIP(ip), "*net.UDPAddr"
+	case 1:
+		addr, kindCoq, ipCoq, kindName = &net.TCPAddr{IP: ip, Port: port}, "KTcp", vC17CoqIP(ip), "*net.TCPAddr"
+	case 2:
+		addr, ipCoq, kindName = &net.IPAddr{IP: ip}, vC17CoqIP(ip), "*net.IPAddr"
+	}
+	saysCoq := []string{"None", "(Some false)", "(Some true)"}[says]
+	coq := fmt.Sprintf("(mk_remote %s %s %d %s)", kindCoq, ipCoq, port, saysCoq)
+	desc := map[string]any{"remote_addr_type": kindName, "ip": fmt.Sprint(ip), "ip_bytes": len(ip), "port": port, "transport_internal_method": saysCoq}
+	if says == 0 {
+		t := &vC17Tr{addr: addr}
+		return t, t, coq, desc
+	}
+	t := &vC17TrSays{vC17Tr{addr: addr}, says == 2}
+	return t, t, coq, desc
+}
 
 type vStub struct{ calls int }
 
@@ -87,11 +182,36 @@ func TestVerifC17Acl(t *testing.T) {
 	defer f.Close()
 	r := rand.New(rand.NewSource(int64(vEnvInt("VERIF_SEED", 1)) + 17))
 	n := vEnvInt("VERIF_N", 300)
-	for c := 0; c < n; c++ {
+	// corpus first (corpus/C17/acl.json): minimal failing inputs of the seeded changes this driver caught
+	var corpus []struct {
+		From       string   `json:"from"`
+		AccessList []string `json:"accesslist"`
+		vC17Fixed
+	}
+	if dir := os.Getenv("VERIF_CORPUS"); dir != "" {
+		if raw, err := os.ReadFile(dir + "/acl.json"); err == nil {
+			if err := json.Unmarshal(raw, &corpus); err != nil {
+				t.Fatalf("corpus acl.json: %v", err)
+			}
+		}
+	}
+	for c := -len(corpus); c < n; c++ {
 		var good []netip.Prefix
 		var cidrs []string
-		cnt := 1 + r.Intn(5)
-		shape := r.Intn(12)
+		fixed := c < 0
+		cnt := 0
+		shape := -1
+		if fixed {
+			cidrs = corpus[c+len(corpus)].AccessList
+			for _, e := range cidrs {
+				if pf, err := netip.ParsePrefix(e); err == nil {
+					good = append(good, pf)
+				}
+			}
+		} else {
+			cnt = 1 + r.Intn(5)
+			shape = r.Intn(12)
+		}
 		if shape == 0 {
 			cnt = 0 // empty configured list: the open default applies
 		}
@@ -101,58 +221,72 @@ func TestVerifC17Acl(t *testing.T) {
 				continue
 			}
 			pf := vRandPrefix(r)
+			if r.Intn(12) == 0 { // lists that cover (part of) the loopback block: both verdicts for sentinel-like sources
+				pf = netip.MustParsePrefix([]string{"127.0.0.0/8", "127.0.0.255/32", "127.0.0.254/31", "127.0.0.0/24", "::ffff:127.0.0.255/128"}[r.Intn(5)])
+			}
 			good = append(good, pf)
 			cidrs = append(cidrs, pf.String())
 		}
 		cfg := new(config.Config)
-		cfg.AccessList = cidrs
+		cfg.AccessList = append([]string(nil), cidrs...)
 		a := New(cfg)
-		// source: inside / boundary / outside / mapped / nil
-		var src netip.Addr
-		pf := vRandPrefix(r)
-		if len(good) > 0 {
-			pf = good[r.Intn(len(good))]
-		}
-		switch r.Intn(5) {
-		case 0:
-			src = pf.Masked().Addr()
-		case 1:
-			src = pf.Masked().Addr().Prev()
-			if !src.IsValid() {
+		var w middleware.Transport
+		var wr vC17Sink
+		var remoteCoq string
+		var rdesc map[string]any
+		sentinel := false
+		if fixed {
+			w, wr, remoteCoq, rdesc = corpus[c+len(corpus)].vC17Make()
+		} else {
+			// source: inside / boundary / outside / mapped / nil
+			var src netip.Addr
+			pf := vRandPrefix(r)
+			if len(good) > 0 {
+				pf = good[r.Intn(len(good))]
+			}
+			switch r.Intn(5) {
+			case 0:
+				src = pf.Masked().Addr()
+			case 1:
+				src = pf.Masked().Addr().Prev()
+				if !src.IsValid() {
+					src = pf.Addr()
+				}
+			case 2:
+				x := vRandPrefix(r)
+				src = x.Addr()
+			default:
 				src = pf.Addr()
 			}
-		case 2:
-			x := vRandPrefix(r)
-			src = x.Addr()
-		default:
-			src = pf.Addr()
+			// one case in five: the neighbourhood of the sub-query signature (127.0.0.255, port 0) on every address type
+			sentinel = r.Intn(5) == 0
+			if sentinel {
+				src = netip.MustParseAddr([]string{"127.0.0.255", "127.0.0.255", "127.0.0.254", "127.0.1.0", "127.0.0.1"}[r.Intn(5)])
+			}
+			var ip net.IP
+			form := r.Intn(4)
+			switch {
+			case form == 0 && !sentinel:
+				ip = nil
+			case form <= 1 && src.Is4():
+				b := src.As16()
+				ip = net.IP(b[:])
+			default:
+				ip = net.IP(src.AsSlice())
+			}
+			w, wr, remoteCoq, rdesc = vC17Remote(r, ip, sentinel)
 		}
-		var ip net.IP
-		srcCoq := "None"
-		form := r.Intn(4)
-		switch {
-		case form == 0:
-			ip = nil
-		case form == 1 && src.Is4():
-			b := src.As16()
-			ip = net.IP(b[:])
-			srcCoq = fmt.Sprintf("(Some (mk_addr false %s))", new(big.Int).SetBytes(b[:]).String())
-		default:
-			ip = net.IP(src.AsSlice())
-			srcCoq = fmt.Sprintf("(Some (mk_addr %v %s))", src.Is4(), vAddrBig(src).String())
-		}
-		internal := r.Intn(8) == 0
 		stub := &vStub{}
 		ch := middleware.NewChain([]middleware.Handler{a, stub})
-		w := &vWriter{Writer: mock.NewWriter("udp", "192.0.2.1:53"), ip: ip, internal: internal}
 		req := new(dns.Msg)
 		req.SetQuestion("example.com.", dns.TypeA)
 		ch.Reset(w, req)
+		internal := ch.Writer.Internal()
 		ch.Next(context.Background())
 		outcome := 2
-		if stub.calls == 1 && !w.Written() {
+		if stub.calls == 1 && !wr.vC17Written() {
 			outcome = 0
-		} else if stub.calls == 0 && !w.Written() {
+		} else if stub.calls == 0 && !wr.vC17Written() {
 			outcome = 1
 		}
 		var pcoq []string
@@ -163,6 +297,12 @@ func TestVerifC17Acl(t *testing.T) {
 		if outcome == 1 {
 			k = "acl-denied"
 		}
+		if sentinel {
+			k = "acl-sentinel-sweep-" + k
+		}
+		if fixed {
+			k = "acl-corpus-" + k
+		}
 		if internal {
 			k = "acl-internal"
 		} else if len(cidrs) == 0 {
@@ -172,9 +312,9 @@ func TestVerifC17Acl(t *testing.T) {
 		}
 		b, _ := json.Marshal(map[string]any{
 			"k":          k,
-			"coq":        fmt.Sprintf("CaseAcl %d [%s] %v %s %d", len(cidrs), strings.Join(pcoq, "; "), internal, srcCoq, outcome),
+			"coq":        fmt.Sprintf("CaseAcl %d [%s] %s %d", len(cidrs), strings.Join(pcoq, "; "), remoteCoq, outcome),
 			"nontrivial": true,
-			"desc":       map[string]any{"accesslist": cidrs, "src": fmt.Sprint(ip), "internal": internal, "next_calls": stub.calls, "written": w.Written()},
+			"desc":       map[string]any{"accesslist": cidrs, "remote": rdesc, "writer_internal": internal, "next_calls": stub.calls, "written": wr.vC17Written()},
 		})
 		f.Write(append(b, '\n'))
 	}
